@@ -103,6 +103,10 @@ type Term struct {
 	big  *big.Int // constant value for width > 64
 	name string   // symbol / UF name
 	args []*Term  // UF args
+	// support: the single symbol the term depends on (supSym), or supMulti when
+	// it depends on several symbols or on an uninterpreted function.
+	supSym   *Term
+	supMulti bool
 }
 
 func (t *Term) isConst() bool { return t.op == OConst }
@@ -146,6 +150,27 @@ func (tt *TermTable) intern(op Op, sort Sort, a, b, c *Term, k uint64, name stri
 		return t
 	}
 	t := &Term{id: int32(len(tt.terms)), op: op, sort: sort, a: a, b: b, c: c, k: k, name: name}
+	if op == OSym {
+		t.supSym = t
+	} else {
+		for _, x := range [3]*Term{a, b, c} {
+			if x == nil {
+				continue
+			}
+			if x.supMulti {
+				t.supMulti = true
+			} else if x.supSym != nil {
+				if t.supSym == nil {
+					t.supSym = x.supSym
+				} else if t.supSym != x.supSym {
+					t.supMulti = true
+				}
+			}
+		}
+		if t.supMulti {
+			t.supSym = nil
+		}
+	}
 	tt.terms = append(tt.terms, t)
 	tt.index[key] = t
 	return t
@@ -222,7 +247,7 @@ func (tt *TermTable) UF(name string, sort Sort, args ...*Term) *Term {
 	if t, ok := tt.index[key]; ok {
 		return t
 	}
-	t := &Term{id: int32(len(tt.terms)), op: OUF, sort: sort, name: name, args: append([]*Term(nil), args...)}
+	t := &Term{id: int32(len(tt.terms)), op: OUF, sort: sort, name: name, args: append([]*Term(nil), args...), supMulti: true}
 	tt.terms = append(tt.terms, t)
 	tt.index[key] = t
 	return t
@@ -1224,3 +1249,128 @@ func termString(t *Term) string {
 }
 
 var _ = bits.Len
+
+// collectSyms appends the symbols occurring in t to out.
+func collectSyms(t *Term, seen map[int32]bool, out *[]*Term) {
+	if t == nil || seen[t.id] {
+		return
+	}
+	seen[t.id] = true
+	if t.op == OSym {
+		*out = append(*out, t)
+		return
+	}
+	if !t.supMulti && t.supSym != nil {
+		if !seen[t.supSym.id] {
+			seen[t.supSym.id] = true
+			*out = append(*out, t.supSym)
+		}
+		return
+	}
+	collectSyms(t.a, seen, out)
+	collectSyms(t.b, seen, out)
+	collectSyms(t.c, seen, out)
+	for _, a := range t.args {
+		collectSyms(a, seen, out)
+	}
+}
+
+// evalUnary evaluates a term that depends on the single symbol sym (width <= 8
+// or Bool) for sym = v. memo is indexed by term id and stamped.
+type unaryEval struct {
+	stamp []uint32
+	val   []uint64
+	cur   uint32
+}
+
+func (u *unaryEval) eval(t *Term, v uint64) uint64 {
+	u.cur++
+	if u.cur == 0 {
+		for i := range u.stamp {
+			u.stamp[i] = 0
+		}
+		u.cur = 1
+	}
+	return u.ev(t, v)
+}
+
+func (u *unaryEval) ev(t *Term, v uint64) uint64 {
+	switch t.op {
+	case OConst:
+		return t.k
+	case OSym:
+		return v
+	}
+	id := int(t.id)
+	if id >= len(u.stamp) {
+		n := id*2 + 64
+		ns := make([]uint32, n)
+		copy(ns, u.stamp)
+		nv := make([]uint64, n)
+		copy(nv, u.val)
+		u.stamp, u.val = ns, nv
+	}
+	if u.stamp[id] == u.cur {
+		return u.val[id]
+	}
+	if t.sort > 64 || t.sort == SF32 || t.sort == SF64 {
+		panic(errNotUnaryEvaluable)
+	}
+	var r uint64
+	switch t.op {
+	case ONot:
+		r = u.ev(t.a, v) ^ 1
+	case OAnd:
+		r = u.ev(t.a, v) & u.ev(t.b, v)
+	case OOr:
+		r = u.ev(t.a, v) | u.ev(t.b, v)
+	case OIte:
+		if u.ev(t.a, v) != 0 {
+			r = u.ev(t.b, v)
+		} else {
+			r = u.ev(t.c, v)
+		}
+	case OEq:
+		r = b2u(u.ev(t.a, v) == u.ev(t.b, v))
+	case OAdd, OSub, OMul, OUDiv, OURem, OSDiv, OSRem, OBAnd, OBOr, OBXor, OShl, OLShr, OAShr:
+		r, _ = foldBV(t.op, t.sort, u.ev(t.a, v), u.ev(t.b, v))
+	case OBNot:
+		r = ^u.ev(t.a, v) & mask(t.sort)
+	case ONeg:
+		r = -u.ev(t.a, v) & mask(t.sort)
+	case OUlt:
+		r = b2u(u.ev(t.a, v) < u.ev(t.b, v))
+	case OUle:
+		r = b2u(u.ev(t.a, v) <= u.ev(t.b, v))
+	case OSlt:
+		r = b2u(sext64(u.ev(t.a, v), t.a.sort) < sext64(u.ev(t.b, v), t.a.sort))
+	case OSle:
+		r = b2u(sext64(u.ev(t.a, v), t.a.sort) <= sext64(u.ev(t.b, v), t.a.sort))
+	case OExtract:
+		r = (u.ev(t.a, v) >> uint(t.k&0xffff)) & mask(t.sort)
+	case OZext:
+		r = u.ev(t.a, v)
+	case OSext:
+		r = uint64(sext64(u.ev(t.a, v), t.a.sort)) & mask(t.sort)
+	case OConcat:
+		r = u.ev(t.a, v)<<uint(t.b.sort) | u.ev(t.b, v)
+	default:
+		panic(errNotUnaryEvaluable)
+	}
+	u.stamp[id] = u.cur
+	u.val[id] = r
+	return r
+}
+
+var errNotUnaryEvaluable = fmt.Errorf("term not evaluable by the byte-domain procedure")
+
+// unaryOK reports whether the byte-domain procedure applies to t: it depends
+// on exactly one symbol of width <= 8 (or Bool) and every node is at most 64
+// bits wide and not floating point.
+func unaryOK(t *Term) bool {
+	if t.supMulti || t.supSym == nil {
+		return false
+	}
+	s := t.supSym.sort
+	return s == SBool || (s > 0 && s <= 8)
+}
